@@ -472,13 +472,23 @@ pub fn run(cfg: &Cfg, rep: &mut Report) {
         let fail = |r: &mut Report, rule: String, msg: String| {
             r.violation(format!("C18:{}", rule), format!("{}\nmodule: {}", msg, b.insts.iter().map(|i| i.show()).collect::<Vec<_>>().join(" ; ").chars().take(1500).collect::<String>()), rp());
         };
-        let m = match catch(|| dr::load_words(&words)) {
+        let mut m = match catch(|| dr::load_words(&words)) {
             Ok(Ok(m)) => m,
             other => {
                 fail(r, "load".into(), format!("subset module not loadable: {:?}", other.map(|x| x.err())));
                 return;
             }
         };
+        // the module value's version word is a plain field: one module in three gets non-zero reserved bytes
+        // there (the parser writes them as zero; a module value edited by its owner need not have them so),
+        // and the lifted module must carry the word of the module it was lifted from
+        let mut want_version = b.version;
+        if idx % 3 == 1 {
+            if let Some(h) = m.header.as_mut() {
+                h.version |= (idx as u32).wrapping_mul(0x9e37_79b9) & 0xff00_00ff;
+                want_version = h.version;
+            }
+        }
         let must_name = &db().insts[el[idx as usize % el.len()].op].opname;
         let lifted = match catch(|| LiftContext::convert(&m)) {
             Err(p) => {
@@ -492,8 +502,8 @@ pub fn run(cfg: &Cfg, rep: &mut Report) {
             Ok(Ok(l)) => l,
         };
         // --- header-level facts
-        if lifted.version != b.version {
-            fail(r, "version".into(), format!("version {:#x}, module has {:#x}", lifted.version, b.version));
+        if lifted.version != want_version {
+            fail(r, "version".into(), format!("version {:#x}, module has {:#x}", lifted.version, want_version));
             return;
         }
         let caps: Vec<u32> = lifted.capabilities.iter().map(|c| *c as u32).collect();
